@@ -3,17 +3,31 @@
      setSnapshotAsCurrent, SetSnapshotOnChain, GetCurrentSnapshot, FindSnapshotByID).
     Definitions only; proofs are in SnapshotProofs.v.
 
-    Validators, chains and external addresses are abstract identifiers ([Z]); the harness numbers
-    them.  Stakes are [Z] (sdk math.Int).  The snapshot store is the KV store under prefix
-    "snapshot": an association list where [save] shadows (= overwrites) the key. *)
+    Validators and external addresses are abstract identifiers ([Z]); the harness numbers them.
+    Chain reference ids, chain types and account traits are the Go strings themselves (Coq [string]
+    = byte sequence): whether two of them are "the same chain" is decided by the model exactly as
+    the code decides it ([String.eqb] = Go's [==] / map lookup on strings), not by the harness.
+    Stakes are [Z] (sdk math.Int).  The snapshot store is the KV store under prefix "snapshot": an
+    association list where [save] shadows (= overwrites) the key. *)
+From Coq Require Import String Ascii.
 From Coq Require Import List ZArith Bool.
 From Paloma Require Import Base.Num.
 Import ListNotations.
 Open Scope Z_scope.
 
-(** One registered external account (valset ExternalChainInfo): chain type is "evm" up to case
-    ([ei_evm]), chain reference id, remote address. *)
-Record extinfo := { ei_evm : bool; ei_chain : Z; ei_addr : Z }.
+(** One registered external account (valset ExternalChainInfo): chain type, chain reference id
+    (both as spelled at registration), remote address, traits. *)
+Record extinfo := { ei_type : string; ei_chain : string; ei_addr : Z; ei_traits : list string }.
+
+(** strings.ToLower as far as a comparison of its result with an all-ASCII lower-case constant is
+    concerned: bytes 'A'..'Z' become 'a'..'z', every other byte is kept.  (Go maps runes: outside
+    ASCII only U+212A and U+0130 have an ASCII lower case, 'k' and 'i'; invalid UTF-8 becomes
+    U+FFFD.  Hence for a constant without 'k' / 'i', such as "evm", Go's result equals the constant
+    exactly when this byte-wise one does.) *)
+Definition lower_byte (a : ascii) : ascii :=
+  let n := N_of_ascii a in if ((65 <=? n) && (n <=? 90))%N then ascii_of_N (n + 32) else a.
+Fixpoint to_lower (s : string) : string :=
+  match s with EmptyString => EmptyString | String a r => String (lower_byte a) (to_lower r) end.
 
 (** A staking validator as IterateValidators yields it. *)
 Record sval := { sv_addr : Z; sv_bonded : bool; sv_jailed : bool; sv_tokens : Z }.
@@ -22,18 +36,18 @@ Record sval := { sv_addr : Z; sv_bonded : bool; sv_jailed : bool; sv_tokens : Z 
 Definition bonded_tokens (v : sval) : Z := if sv_bonded v then sv_tokens v else 0.
 
 Record snapval := { v_addr : Z; v_share : Z; v_infos : list extinfo }.
-Record snapshot := { sn_id : Z; sn_vals : list snapval; sn_total : Z; sn_chains : list Z }.
+Record snapshot := { sn_id : Z; sn_vals : list snapval; sn_total : Z; sn_chains : list string }.
 
 Record state := {
   st_vals : list sval;                     (* staking validators, iteration order *)
   st_infos : list (Z * list extinfo);      (* valset external-chain-info store: validator -> accounts *)
-  st_active : list Z;                      (* reference ids of the evm keeper's active chains *)
+  st_chains : list (string * bool);        (* evm keeper's chain-info store as GetAllChainInfos yields it: (reference id, IsActive) *)
   st_snaps : list (Z * snapshot);          (* valset store, prefix "snapshot" *)
   st_counter : Z                           (* id generator, key "snapshot-id" *)
 }.
 
 Definition init : state :=
-  {| st_vals := []; st_infos := []; st_active := []; st_snaps := []; st_counter := 0 |}.
+  {| st_vals := []; st_infos := []; st_chains := []; st_snaps := []; st_counter := 0 |}.
 
 Fixpoint alookup {A} (k : Z) (l : list (Z * A)) : option A :=
   match l with
@@ -45,11 +59,24 @@ Fixpoint alookup {A} (k : Z) (l : list (Z * A)) : option A :=
 Definition infos_of (st : state) (a : Z) : list extinfo :=
   match alookup a (st_infos st) with Some l => l | None => [] end.
 
-(** ValidatorSupportsAllChains / evm MissingChains: every active chain's reference id occurs among
-    the validator's accounts (the chain type is not looked at there). *)
-Definition has_account (c : Z) (l : list extinfo) : bool := existsb (fun e => ei_chain e =? c) l.
+(** evm Keeper.MissingChains(inputChainReferenceIDs): a set of the input ids (map keyed by the id as
+    given), then a walk over all chain infos: inactive ones are skipped, an active one whose
+    reference id is not a key of the map is reported.  Keys are compared as Go compares strings:
+    byte for byte ([String.eqb]); no case folding, trimming or other normalisation (the translator
+    pins the key expressions and the calls made in the function body). *)
+Definition id_in (c : string) (ids : list string) : bool := existsb (String.eqb c) ids.
+Definition missing_chains (input : list string) (chains : list (string * bool)) : list string :=
+  map fst (filter (fun ch => snd ch && negb (id_in (fst ch) input)) chains).
+
+(** the reference ids of the active chains *)
+Definition st_active (st : state) : list string := map fst (filter snd (st_chains st)).
+
+(** ValidatorSupportsAllChains: the reference ids of the validator's accounts (the chain type is
+    not looked at), MissingChains of them, [len(missingChains) == 0]. *)
 Definition supports_all (st : state) (a : Z) : bool :=
-  forallb (fun c => has_account c (infos_of st a)) (st_active st).
+  match missing_chains (map ei_chain (infos_of st a)) (st_chains st) with [] => true | _ :: _ => false end.
+
+Definition has_account (c : string) (l : list extinfo) : bool := existsb (fun e => String.eqb (ei_chain e) c) l.
 
 Definition eligible (st : state) (v : sval) : bool :=
   sv_bonded v && negb (sv_jailed v) && supports_all st (sv_addr v).
@@ -69,7 +96,7 @@ Definition with_id (id : Z) (sn : snapshot) : snapshot :=
   {| sn_id := id; sn_vals := sn_vals sn; sn_total := sn_total sn; sn_chains := sn_chains sn |}.
 
 (** The only change a stored snapshot can undergo. *)
-Definition add_chains (cs : list Z) (sn : snapshot) : snapshot :=
+Definition add_chains (cs : list string) (sn : snapshot) : snapshot :=
   {| sn_id := sn_id sn; sn_vals := sn_vals sn; sn_total := sn_total sn; sn_chains := sn_chains sn ++ cs |}.
 
 Definition find_snapshot (st : state) (id : Z) : option snapshot := alookup id (st_snaps st).
@@ -78,46 +105,46 @@ Definition find_snapshot (st : state) (id : Z) : option snapshot := alookup id (
 Definition current (st : state) : option snapshot := find_snapshot st (st_counter st).
 
 Definition save (id : Z) (sn : snapshot) (st : state) : state :=
-  {| st_vals := st_vals st; st_infos := st_infos st; st_active := st_active st;
+  {| st_vals := st_vals st; st_infos := st_infos st; st_chains := st_chains st;
      st_snaps := (id, sn) :: st_snaps st; st_counter := st_counter st |}.
 
 (** setSnapshotAsCurrent: id := ++counter, store under it. *)
 Definition set_as_current (sn : snapshot) (st : state) : state :=
   let id := st_counter st + 1 in
-  {| st_vals := st_vals st; st_infos := st_infos st; st_active := st_active st;
+  {| st_vals := st_vals st; st_infos := st_infos st; st_chains := st_chains st;
      st_snaps := (id, with_id id sn) :: st_snaps st; st_counter := id |}.
 
 (** SetSnapshotOnChain: load by id (error when absent: nothing written), append, save under the
     loaded snapshot's own id field. *)
-Definition set_on_chain (id c : Z) (st : state) : state :=
+Definition set_on_chain (id : Z) (c : string) (st : state) : state :=
   match find_snapshot st id with
   | None => st
   | Some sn => save (sn_id sn) (add_chains [c] sn) st
   end.
 
 (** Operations of a history.  Staking changes, (accepted) registrations and the set of active
-    chains are the environment; [OBuild worthy] is TriggerSnapshotBuild where [worthy] is the
+    chains (the evm keeper's chain-info store, with the activity flag) are the environment; [OBuild worthy] is TriggerSnapshotBuild where [worthy] is the
     implementation's isNewSnapshotWorthy verdict (taken as an input: the property constrains what a
     stored snapshot contains, not when one is stored). *)
 Inductive op :=
 | OStaking (vs : list sval)
 | ORegister (a : Z) (infos : list extinfo) (accepted : bool)
-| OActive (cs : list Z)
+| OChains (cs : list (string * bool))
 | OBuild (worthy : bool)
-| OSetOnChain (id c : Z).
+| OSetOnChain (id : Z) (c : string).
 
 Definition step (st : state) (o : op) : state :=
   match o with
   | OStaking vs =>
-      {| st_vals := vs; st_infos := st_infos st; st_active := st_active st;
+      {| st_vals := vs; st_infos := st_infos st; st_chains := st_chains st;
          st_snaps := st_snaps st; st_counter := st_counter st |}
   | ORegister a infos accepted =>
       if accepted then
-        {| st_vals := st_vals st; st_infos := (a, infos) :: st_infos st; st_active := st_active st;
+        {| st_vals := st_vals st; st_infos := (a, infos) :: st_infos st; st_chains := st_chains st;
            st_snaps := st_snaps st; st_counter := st_counter st |}
       else st
-  | OActive cs =>
-      {| st_vals := st_vals st; st_infos := st_infos st; st_active := cs;
+  | OChains cs =>
+      {| st_vals := st_vals st; st_infos := st_infos st; st_chains := cs;
          st_snaps := st_snaps st; st_counter := st_counter st |}
   | OBuild worthy => if worthy then set_as_current (create st) st else st
   | OSetOnChain id c => set_on_chain id c st
